@@ -132,6 +132,28 @@ MUTATIONS = [
     ('dg-release-mutex-before-edge', 'DG', 'src/runtime/dependency_graph.rs',
      r"re:(unsafe \{ me\.add_edge\(from_id, database_key, to_id, cvar\) \};)(.*?)(drop\(query_mutex_guard\);)",
      r"\3\2\1"),
+    # revision / durability bookkeeping of writes (LogicRuntime)
+    ('rt-report-only-written-slot', 'Runtime', 'src/runtime.rs',
+     "self.revisions[1..=durability.index()].fill(new_revision);", "self.revisions[durability.index()] = new_revision;"),
+    ('rt-report-exclusive-range', 'Runtime', 'src/runtime.rs',
+     "self.revisions[1..=durability.index()].fill(new_revision);", "self.revisions[1..durability.index()].fill(new_revision);"),
+    ('rt-report-from-2', 'Runtime', 'src/runtime.rs',
+     "self.revisions[1..=durability.index()].fill(new_revision);", "self.revisions[2..=durability.index()].fill(new_revision);"),
+    ('rt-last-changed-default-current', 'Runtime', 'src/runtime.rs',
+     "None => never_changed_revision(),", "None => self.current_revision(),"),
+    ('rt-set-field-reports-new-durability', 'Runtime', 'src/input.rs',
+     "runtime.report_tracked_write(*field_durability);", "runtime.report_tracked_write(durability.unwrap_or(*field_durability));"),
+    ('rt-set-field-skips-medium', 'Runtime', 'src/input.rs',
+     "if *field_durability != Durability::MIN {", "if *field_durability > Durability::MEDIUM {"),
+    ('rt-set-field-stamp-after-report', 'Runtime', 'src/input.rs',
+     "data.revisions[field_index] = runtime.current_revision();", "data.revisions[field_index] = runtime.last_changed_revision(data.durabilities[field_index]);"),
+    ('rt-set-field-asserts-max-of-new', 'Runtime', 'src/input.rs',
+     "            data.durabilities[field_index],\n            Durability::NEVER_CHANGE,", "            data.durabilities[field_index],\n            Durability::HIGH,"),
+    ('rt-field-mca-ge', 'Runtime', 'src/input/input_field.rs',
+     "value.revisions[self.field_index] > revision", "value.revisions[self.field_index] >= revision"),
+    ('rt-synthetic-no-new-revision', 'Runtime', 'src/database.rs',
+     "        zalsa_mut.new_revision();\n        zalsa_mut.runtime_mut().report_tracked_write(durability);", "        zalsa_mut.runtime_mut().report_tracked_write(durability);"),
+    ('rt-revision-start-0', 'Runtime', 'src/revision.rs', "const START: usize = 1;", "const START: usize = 2;"),
 ]
 
 
@@ -143,7 +165,7 @@ def sh(cmd, **kw):
 def head_sources(dst):
     shutil.rmtree(dst, ignore_errors=True)
     os.makedirs(dst)
-    a = subprocess.Popen(['git', '-C', REPO, 'archive', 'HEAD', 'src'], stdout=subprocess.PIPE)
+    a = subprocess.Popen(['git', '-C', REPO, 'archive', 'HEAD', 'src', 'components/salsa-macro-rules/src'], stdout=subprocess.PIPE)
     subprocess.check_call(['tar', '-x', '-C', dst], stdin=a.stdout)
     a.wait()
 
@@ -178,7 +200,10 @@ def lean_check(fam, gen_file, work):
         os.makedirs(os.path.join(lib, 'SalsaVerif', d), exist_ok=True)
         os.makedirs(os.path.join(srcroot, 'SalsaVerif', d), exist_ok=True)
     files = {}
+    has_glue = os.path.exists(os.path.join(LEAN, 'SalsaVerif', 'Proofs', 'GenLogic%s.lean' % fam))
     for d, name in (('Gen', 'Logic%s' % fam), ('Proofs', 'GenLogic%s' % fam), ('Props', 'GenLogic%s' % fam)):
+        if d == 'Proofs' and not has_glue:
+            continue
         dst = os.path.join(srcroot, 'SalsaVerif', d, name + '.lean')
         shutil.copy(gen_file if d == 'Gen' else os.path.join(LEAN, 'SalsaVerif', d, name + '.lean'), dst)
         files[d] = (dst, os.path.join(lib, 'SalsaVerif', d, name + '.olean'))
@@ -189,7 +214,7 @@ def lean_check(fam, gen_file, work):
     rc, out = lean('Gen')
     if rc != 0:
         return 'generated file does not compile', [], out.strip().split('\n')[0]
-    rc, out = lean('Proofs')
+    rc, out = lean('Proofs') if has_glue else (0, '')
     if rc != 0:
         return 'glue (Proofs/GenLogic%s) does not compile' % fam, ['*all*'], out.strip().split('\n')[0]
     rc, out = lean('Props', emit=False)
@@ -213,7 +238,7 @@ def main():
     head_sources(os.path.join(base, 'repo'))
     gen = [sys.executable, os.path.join(ROOT, 'translate', 'gen.py')]
     rc, out = sh(gen + ['--repo', os.path.join(base, 'repo'), '--out', os.path.join(base, 'gen'),
-                        'LogicVerify', 'LogicIntern', 'LogicCycle', 'LogicStructs', 'LogicDG'])
+                        'LogicVerify', 'LogicIntern', 'LogicCycle', 'LogicStructs', 'LogicDG', 'LogicRuntime'])
     if rc != 0:
         print("baseline does not translate:", out); sys.exit(1)
     rows = []
